@@ -357,7 +357,36 @@ func (c *Ctx) squareCase(sc sqCase) {
 	if b1.err != nil {
 		fail("C06", "Build returned an error although every blob tx decodes: "+trunc(b1.err.Error(), 200))
 		fail("C01", "Build returned an error: "+trunc(b1.err.Error(), 200))
+		fail("C07", "Build returned an error where the specified layout function is defined (every blob tx decodes): "+trunc(b1.err.Error(), 200))
 		return
+	}
+	// the greedy selection and the side, recomputed from the rules alone (reference estimate): a transaction is
+	// kept iff the worst-case estimate with it still fits; the side is the least power of two covering the estimate
+	if sc.class == "" {
+		c.oracle()
+		re := refEst{}
+		var wantKeptN, wantKeptB [][]byte
+		for _, t := range sc.txs {
+			ne := re.with(t, sc.thr)
+			if ne.total() <= sc.max*sc.max {
+				re = ne
+				if t.isBlob {
+					wantKeptB = append(wantKeptB, t.raw)
+				} else {
+					wantKeptN = append(wantKeptN, t.raw)
+				}
+			}
+		}
+		wantKept := append(append([][]byte(nil), wantKeptN...), wantKeptB...)
+		if !eqTxs(b1.kept, wantKept) {
+			fail("C07", fmt.Sprintf("Build kept %d transactions; the greedy rule on the worst-case estimate keeps %d (or other ones)", len(b1.kept), len(wantKept)))
+			fail("C06", "a transaction was kept / refused against the rule 'refused exactly when the estimate would exceed maximum squared'")
+		} else if len(wantKept) > 0 {
+			if side := b1.sq.Size(); side != int(refMinSide(uint64(re.total()))) {
+				fail("C07", fmt.Sprintf("the square side is %d; the least power of two whose area covers the worst-case estimate %d is %d", side, re.total(), refMinSide(uint64(re.total()))))
+				fail("C06", fmt.Sprintf("the square side is %d, not the least power of two covering the estimate %d", side, re.total()))
+			}
+		}
 	}
 	// determinism + kept shape (C01)
 	b2 := safeBuild(txs, sc.max, sc.thr)
